@@ -13,8 +13,10 @@ import (
 	"os/exec"
 	"path/filepath"
 	"sort"
+	"strconv"
 	"strings"
 	"sync"
+	"syscall"
 	"time"
 
 	"github.com/martian-lang/martian/martian/core"
@@ -154,13 +156,30 @@ func runC18Scripts(c *Ctx) {
 			cmd.Dir = root
 			cmd.Env = []string{"PATH=/nonexistent", "HOME=/nonexistent", "VERIF_REC_OUT=" + outp,
 				"VERIF_REC_KEYS=" + strings.Join(keys, ",")}
-			cmd.Run()
+			stdout, _ := cmd.Output()
 			var got recordOut
 			b, err := os.ReadFile(outp)
-			for w := 0; err != nil && w < 40 && strings.Contains(t.text, "&"); w++ {
-				// templates that start the command in the background
-				time.Sleep(50 * time.Millisecond)
-				b, err = os.ReadFile(outp)
+			if err != nil && strings.Contains(t.text, "&") {
+				// templates that start the command in the background and print its pid: wait for
+				// that process to end (however loaded the machine is), then for the file
+				pid := 0
+				if f := strings.Fields(string(stdout)); len(f) > 0 {
+					pid, _ = strconv.Atoi(f[len(f)-1])
+				}
+				for w := 0; w < 1200; w++ {
+					if b, err = os.ReadFile(outp); err == nil && len(b) > 0 {
+						break
+					}
+					if pid > 0 && w > 40 && syscall.Kill(pid, 0) != nil {
+						// the process is gone: one last look
+						b, err = os.ReadFile(outp)
+						break
+					}
+					if pid == 0 && w > 100 {
+						break
+					}
+					time.Sleep(50 * time.Millisecond)
+				}
 			}
 			if err == nil {
 				err = json.Unmarshal(b, &got)
